@@ -183,6 +183,10 @@ class CallEngine(Engine):
   def gen_value(self, rng, regs):
     if rng.random() < 0.04:
       return ['obj', 'ITER']       # an iterable only its consumer may walk (a generator, a 0-d array): bound and delivered untouched
+    if rng.random() < 0.06:
+      # a dict literal with keys that are equal in Python (one entry) or, rarely, cannot be hashed (TypeError at the parse)
+      d = ginm.gen_pydict(rng)
+      return d if rng.random() < 0.6 else ['l', [['i', 0], d]]
     return ginm.gen_plain(rng, 2)
 
   def gen_call(self, rng, c):
@@ -234,6 +238,8 @@ class CallEngine(Engine):
       key = '/'.join(sc + [sel + '.' + p])
       v = self.gen_value(rng, regs)
       kind = rng.random()
+      if ginm.has_unhashable_key(v):
+        kind = 0.6            # such a value exists as TEXT only: through the parser, which raises TypeError
       if kind < 0.5:
         ops.append(['bind', key, v])
       elif kind < 0.75 and ginm.textable(v):
